@@ -70,7 +70,14 @@ def rule_recheck(ctx, px):
         "reserved identifier, encoding stability), each of which either re-raises or replaces the token through the "
         "registered failure handler; no path returns a token that skipped them",
     )
-    f = px.func(COMMON, "TokenEncoder.strop")
+    f0 = px.func(COMMON, "TokenEncoder.strop")
+
+    class _View:
+        """strop with its table-driven loops (`for check, handler in ((..), ..)`) written out"""
+        def __init__(self, g):
+            self.node = pyfront.unroll_literal_loops(g.node)
+            self.cls, self.module, self.short = g.cls, g.module, g.short
+    f = _View(f0)
     rets = [r for r in ast.walk(f.node) if isinstance(r, ast.Return)]
     if not rets:
         raise AnalysisError("anchor missing: return of TokenEncoder.strop")
